@@ -1,6 +1,7 @@
 import HcipyVerif.Lemmas.Coronagraph
 import HcipyVerif.Lemmas.CoronagraphMat
 import HcipyVerif.Lemmas.CoronagraphMS
+import HcipyVerif.Lemmas.CoronagraphLyot
 import Mathlib.Algebra.Order.Field.Rat
 import Mathlib.Algebra.Order.Floor.Ring
 import Mathlib.Data.Rat.Floor
@@ -357,6 +358,80 @@ theorem occulted_opaque_mask (F : Vector (Vector K n) m) (B : Vector (Vector K m
     rw [h k]; ring
   unfold occultedForward
   simp only [hz, matVec_zeroVec]
+
+/-! ### `backward` (round 4)
+
+`lyotBackward` / `occultedBackward` are the literal `backward` methods (the stop acts first and
+conjugated, the mask conjugated, the propagator pair used in the same order); ops `lyotb`,
+`occultedb` run them on the stand-ins of harness part C next to the real methods. -/
+
+/-- `backward` is `forward` through the conjugated mask, without a stop, applied to the field
+already multiplied by the conjugated stop. -/
+theorem lyot_backward_eq_forward (cj : K → K) (F : Vector (Vector K n) m) (B : Vector (Vector K m) n)
+    (mask : Vector K m) (stop : Option (Vector K n)) (y : Vector K n) :
+    lyotBackward cj F B mask stop y =
+      lyotForward F B (Vector.ofFn fun k => cj mask[k]) none
+        (match stop with
+         | none => y
+         | some s => Vector.ofFn fun i => y[i] * cj s[i]) :=
+  lyotBackward_eq_forward cj F B mask stop y
+
+/-- **Fully transmissive mask, backward**: the input times the conjugated Lyot stop (arbitrary `F`, `B`). -/
+theorem lyot_backward_transparent_mask (cj : K → K) (hcj : cj 1 = 1) (F : Vector (Vector K n) m)
+    (B : Vector (Vector K m) n) (mask : Vector K m) (stop : Option (Vector K n)) (y : Vector K n)
+    (h : ∀ k : Fin m, mask[k] = 1) :
+    lyotBackward cj F B mask stop y =
+      match stop with
+      | none => y
+      | some s => Vector.ofFn fun i => y[i] * cj s[i] := by
+  have hk : ∀ k : Fin m, (Vector.ofFn fun k : Fin m => cj mask[k])[k] = 1 := fun k => by have hm := h k; simp only [Fin.getElem_fin] at hm; simp [hm, hcj]
+  rw [lyotBackward_eq_forward, lyot_transparent_mask F B _ none _ hk]
+  cases stop <;> rfl
+
+/-- **Fully opaque mask, backward**: the occulting Lyot coronagraph returns nothing. -/
+theorem occulted_backward_opaque_mask (cj : K → K) (hcj : cj 0 = 0) (F : Vector (Vector K n) m)
+    (B : Vector (Vector K m) n) (mask : Vector K m) (y : Vector K n) (h : ∀ k : Fin m, mask[k] = 0) :
+    occultedBackward cj F B mask y = zeroVec K n := by
+  have hk : ∀ k : Fin m, (Vector.ofFn fun k : Fin m => cj mask[k])[k] = 0 := fun k => by have hm := h k; simp only [Fin.getElem_fin] at hm; simp [hm, hcj]
+  have he : occultedBackward cj F B mask y = occultedForward F B (Vector.ofFn fun k => cj mask[k]) y := by
+    unfold occultedBackward occultedForward
+    simp
+  rw [he, occulted_opaque_mask F B _ y hk]
+
+/-- **`backward` is the adjoint of `forward`** in `⟨u, v⟩ = Σ conj(u_i) v_i` whenever the
+propagator's `backward` is the adjoint of its `forward` (`B = Fᴴ`: the decidable predicate
+`propAdjointDefect = 0`, reported by op `lyotadj` for the stand-ins), for every mask, stop and
+conjugation `cj` (an involutive ring homomorphism): `⟨y, forward x⟩ = ⟨backward y, x⟩`. -/
+theorem lyot_backward_adjoint (cj : K →+* K) (hinv : ∀ a, cj (cj a) = a)
+    (F : Vector (Vector K n) m) (B : Vector (Vector K m) n) (mask : Vector K m) (stop : Option (Vector K n))
+    (x y : Vector K n) (hadj : ∀ (i : Fin n) (k : Fin m), propAdjointDefect cj F B i k = 0) :
+    cdot cj y (lyotForward F B mask stop x) = cdot cj (lyotBackward cj F B mask stop y) x := by
+  have hb : ∀ i k, toFn2 B i k = cj (toFn2 F k i) := by
+    intro i k
+    have := hadj i k
+    unfold propAdjointDefect at this
+    exact sub_eq_zero.1 this
+  rw [cdot_eq, cdot_eq, lyotBackward_eq_forward, toFn_lyotForward_none]
+  have hm : toFn (Vector.ofFn fun k => cj mask[k]) = fun k => cj (toFn mask k) := by rw [toFn_ofFn]; rfl
+  rw [hm]
+  cases stop with
+  | none =>
+    rw [toFn_lyotForward_none]
+    exact lyotCoreF_adjoint cj hinv _ _ hb _ _ _
+  | some s =>
+    rw [toFn_lyotForward_some]
+    simp only [toFn_ofFn]
+    have := lyotCoreF_adjoint cj hinv (toFn2 F) (toFn2 B) hb (toFn mask) (toFn x) (fun i : Fin n => y[i] * cj s[i])
+    rw [← this]
+    refine Finset.sum_congr rfl fun i _ => ?_
+    simp only [toFn]
+    rw [map_mul, hinv]; ring
+
+
+/-- The hypothesis is satisfiable and the identity evaluated at the Gaussian rationals is checked by the
+driver on every run (op `lyotadj`); here over `ℚ` with the trivial conjugation. -/
+example : ∀ (i : Fin 2) (k : Fin 1), propAdjointDefect (K := ℚ) id #v[#v[1, 2]] #v[#v[1], #v[2]] i k = 0 := by
+  decide +kernel
 
 end Lyot
 
